@@ -113,8 +113,11 @@ fn check(case: &Case, obs: &mut Obs) -> Verdict {
             if !clean_ansi(ind) {
                 return Verdict::Skipped("outside the sweep's domain");
             }
-            let lo = dw(ind) + dw(p);
-            let hi = p.len() + dw(ind) + 2;
+            // bounds of the sweep from the harness's reference width (exact here: p and the indent are free of
+            // malformed sequences), so that a wrong display_width in the library can neither hide a paragraph
+            // that fits nor upset the harness's own arithmetic
+            let lo = ref_width(ind) + ref_width(p);
+            let hi = (p.len() + ref_width(ind) + 2).max(lo);
             let want = format!("{}{}", ind, p.trim_end_matches(' '));
             let text = if second { format!("{}{}", o.le(), p) } else { p.to_string() };
             let mut fast = 0u64;
@@ -168,7 +171,7 @@ fn check(case: &Case, obs: &mut Obs) -> Verdict {
             }
             Verdict::held(
                 !p.is_empty() && slow > 0,
-                h(&[0, o.shape(), second as u64, bucket(hi - lo), (p.len() > dw(p)) as u64, p.contains('\u{1b}') as u64, p.ends_with(' ') as u64, p.starts_with(' ') as u64]),
+                h(&[0, o.shape(), second as u64, bucket(hi.saturating_sub(lo)), (p.len() > ref_width(p)) as u64, p.contains('\u{1b}') as u64, p.ends_with(' ') as u64, p.starts_with(' ') as u64]),
             )
         }
         "fits_large" => {
